@@ -713,7 +713,7 @@ def gen_rows(rng, prone, tags):
 class C07(Property):
     id = "C07"
     prop_modules = ["CobaVerif.Props.C07"]
-    quick_n, thorough_n, search_n = 500, 12000, 1200
+    quick_n, thorough_n, search_n = 2000, 40000, 2500
     case_timeout = 60
     workers = 8
     rule = ("a case is an experiment (1-3 environments, 1-3 learners, 1-2 evaluators, a non-empty set of triples) whose instrumented evaluators yield generated rows "
@@ -861,7 +861,10 @@ class C07(Property):
             matching = [c for c in ("ff", "ft", "tf", "tt") if all(impl[r] == combos[c][r] for r in ("nofile", "file", "from_file"))]
             if not matching:
                 ok = False
-                if collide and not any("raised" in v for v in impl.values()):
+                if collide and all(v.get("raised") == "TypeError" for v in impl.values()):
+                    ok = True       # pinned code: the interleaved column put a non-iterable after a list (set-order dependent)
+                    tags.append("A:collision-raised")
+                elif collide and not any("raised" in v for v in impl.values()):
                     # the pinned encoder's output depends on Python's set order when names collide under str(): compare everything else
                     ok = any(all(all(impl[r][t] == combos[c][r].get(t) for t in ("exp", "envs", "lrns", "vals")) for r in ("nofile", "file", "from_file")) for c in ("ff", "tt"))
                     tags.append("A:collision-partial")
@@ -912,6 +915,21 @@ class C07(Property):
         def cp(c):
             return json.loads(json.dumps(c))
         tris = case["triples"]
+        # drop components no triple refers to (renumbering the rest)
+        for kind, pos in (("envs", 0), ("lrns", 1), ("vals", 2)):
+            used = sorted({t[pos] for t in tris})
+            if len(used) < len(case[kind]):
+                c = cp(case)
+                ren = {o: n for n, o in enumerate(used)}
+                c[kind] = [c[kind][o] for o in used]
+
+                def rn(t):
+                    t = list(t); t[pos] = ren[t[pos]]; return t
+                c["triples"] = [rn(t) for t in c["triples"]]
+                c["rows"] = [[rn(t), r] for t, r in c["rows"]]
+                c["skip1"] = [rn(t) for t in c["skip1"]]
+                c["fail"] = [rn(t) for t in c["fail"]]
+                yield c
         if len(tris) > 1:
             for i in range(len(tris)):
                 c = cp(case)
